@@ -84,13 +84,13 @@ Definition file_secret (f : nfile) : bool :=
   | FKeyPublic | FGroup | FChainDb => false
   end.
 
-(* parameters are the constants read from the source (Gen/Consts.v) *)
-Definition file_trace (rw_perm dkg_perm chain_perm : Z) (f : nfile) : list fop :=
+(* parameters are read from the source: the constants (Gen/Consts.v) and, for the four TOML
+   files of the key store, the `secure` flag key.Save is called with (Gen/SaveFlags.v) *)
+Definition file_trace (rw_perm dkg_perm chain_perm : Z) (secure : nfile -> bool) (f : nfile) : list fop :=
   match f with
-  | FKeyPrivate | FShare => secure_file_trace rw_perm
-  | FKeyPublic | FGroup => plain_file_trace
   | FDkgDb => bolt_trace dkg_perm
   | FChainDb => bolt_trace chain_perm
+  | _ => if secure f then secure_file_trace rw_perm else plain_file_trace
   end.
 
 (* ------------------------------------------------------------------------------------- *)
